@@ -26,7 +26,7 @@ SSC_GOOD = b"#VERSION:0.83;\n#TITLE:ssc;\n"
 
 def content_for(rng, name):
     if name.lower().endswith(".ssc"):
-        return rng.choice([SSC_GOOD, SSC_GOOD, b"junk " + SSC_GOOD, ENC, GOOD + b"#NOTEDATA:;\n#NOTES:0000;\n"])      # an .ssc file need not start with VERSION
+        return rng.choice([SSC_GOOD, SSC_GOOD, b"junk " + SSC_GOOD, ENC, GOOD + b"#NOTEDATA:;\n#NOTES:0000;\n", b"", b"\n"])      # an .ssc file need not start with VERSION
     return rng.choice([GOOD, GOOD, STRAY, ENC, SSC_GOOD])                                                             # and an .sm file may
 
 
